@@ -43,12 +43,18 @@ struct c16_probe {
     bool render;
     unsigned n_ready, n_dead, n_acquired, n_lost, n_fatal, n_error, n_new_flow_def,
              n_need_output, n_source_end, n_warn, n_other;
+    /* order of announcements (C04): the first event that is not a log must be READY; nothing of any kind after DEAD */
+    bool seen_nonlog, first_nonlog_not_ready;
+    unsigned n_after_dead;
+    int first_after_dead;
 };
 
 static int c16_probe_catch(struct uprobe *uprobe, struct upipe *upipe, int event, va_list args)
 {
     struct c16_probe *p = container_of(uprobe, struct c16_probe, uprobe);
     (void)upipe;
+    if (p->n_dead) { if (!p->n_after_dead++) p->first_after_dead = event; }
+    if (event != UPROBE_LOG && !p->seen_nonlog) { p->seen_nonlog = true; if (event != UPROBE_READY) p->first_nonlog_not_ready = true; }
     switch (event) {
     case UPROBE_LOG: {
         struct ulog *ulog = va_arg(args, struct ulog *);
@@ -114,6 +120,9 @@ struct c16_sink {
     int nrec, cap;
     unsigned n_flow_def;
     bool data_before_flow_def;
+    bool reject_flow_def;         /* C04: the sink refuses flow definitions for now */
+    bool last_rejected;           /* its last answer to set_flow_def was a refusal */
+    bool data_while_rejected;     /* a buffer arrived although the last definition offered was refused */
     bool broken;          /* a received block could not be read back */
     unsigned *seq_counter;
 };
@@ -129,6 +138,7 @@ static void c16_sink_input(struct upipe *upipe, struct uref *uref, struct upump 
     struct c16_rec *r = &s->rec[s->nrec++];
     memset(r, 0, sizeof(*r));
     if (!s->n_flow_def) s->data_before_flow_def = true;
+    if (s->last_rejected) s->data_while_rejected = true;
     if (s->seq_counter) r->seq = (*s->seq_counter)++;
     size_t sz = 0;
     if (uref->ubuf == NULL || !ubase_check(uref_block_size(uref, &sz))) {
@@ -151,7 +161,11 @@ static int c16_sink_control(struct upipe *upipe, int command, va_list args)
     struct c16_sink *s = container_of(upipe, struct c16_sink, upipe);
     (void)args;
     switch (command) {
-    case UPIPE_SET_FLOW_DEF: s->n_flow_def++; return UBASE_ERR_NONE;
+    case UPIPE_SET_FLOW_DEF:
+        if (s->reject_flow_def) { s->last_rejected = true; return UBASE_ERR_INVALID; }
+        s->last_rejected = false;
+        s->n_flow_def++;
+        return UBASE_ERR_NONE;
     case UPIPE_REGISTER_REQUEST:
     case UPIPE_UNREGISTER_REQUEST: return UBASE_ERR_NONE;
     default: return UBASE_ERR_UNHANDLED;
